@@ -382,3 +382,23 @@ func AfterFunc(ctx context.Context, f func()) (stop func() bool) {
 		return true
 	}
 }
+
+// WaitDone blocks the calling thread until ctx is cancelled (its modelled Done channel is closed):
+// what a blocking system call that honours a context does (a connect to a host that never answers).
+func WaitDone(ctx context.Context) {
+	e := cur
+	if e == nil || e.aborting {
+		<-ctx.Done()
+		return
+	}
+	done := ctx.Done()
+	if done == nil {
+		WaitUntil("ctx.wait", nil, func() bool { return false })
+		return
+	}
+	id, _ := chid(done)
+	WaitUntil("ctx.wait", id, func() bool { return e.cs(id).closed })
+	if e.running != nil {
+		e.running.vc.join(e.cs(id).closeVC)
+	}
+}
